@@ -256,6 +256,38 @@ def run(ctx):
                 check_truncation(ctx, rng, name + "/again", zoo.rebuild(t), rng.choice(t.n_vertices, size=max(1, t.n_vertices // 5), replace=False), reqs, meta, depth=1)
     core.history_check(ctx, "import numpy as np\nfrom koala import example_graphs as eg, voronization as vz, graph_utils as gu, quasicrystals as qc, phase_diagrams as pdg, hamiltonian as ham\nfrom koala.flux_finder import flux_finder as ff\n\ndef _canon(l):\n    parts = [l.vertices.positions.ravel(), l.edges.indices.ravel().astype(float), l.edges.crossing.ravel().astype(float)]\n    return np.concatenate(parts)\ndef _plaq(l):\n    out = []\n    for p in l.plaquettes:\n        out += [float(len(p.edges))] + [float(x) for x in p.edges] + [float(x) for x in p.directions] + [float(x) for x in p.vertices] + [float(x) for x in p.center]\n    return np.array(out)\n_pts = np.random.default_rng(123).uniform(size=(14, 2))\n", ["_canon(gu.make_dual(vz.generate_lattice(_pts)))", "_canon(gu.vertices_to_polygon(vz.generate_lattice(_pts), np.array([0, 5, 9])))",
                                       "_canon(gu.vertices_to_polygon(eg.honeycomb_lattice(3)))"], label="dual / truncation call")
+    # ---- the forms of the `vertices` argument: a bare index (Python int, numpy integer, 0 included), a one-element list / array, None = all
+    canon_l = lambda x: (x.vertices.positions.tobytes(), x.edges.indices.tobytes(), x.edges.crossing.tobytes())
+    for name, l in [("honey3", eg.honeycomb_lattice(3)), ("vor14", zoo.rebuild(zoo.voronoi(rng, 14)))]:
+        for v in (0, 1, l.n_vertices - 1):
+            try:
+                ref = canon_l(gu.vertices_to_polygon(l, np.array([v])))
+                for lab, arg in (("python int", int(v)), ("numpy int64", np.int64(v)), ("numpy int32", np.int32(v)), ("one-element list", [int(v)]), ("tuple", (int(v),))):
+                    if canon_l(gu.vertices_to_polygon(l, arg)) != ref:
+                        ctx.impl_violation(f"{name}: truncating vertex {v} given as a {lab} differs from truncating np.array([{v}])", dict(case=name, op="truncate", lattice=zoo.lat_to_json(l), chosen=[int(v)], form=lab))
+                    ctx.case((name, "truncate-form", v, lab), nontrivial=True)
+            except Exception as ex:
+                ctx.impl_violation(f"{name}: vertices_to_polygon raised {type(ex).__name__}: {ex} for vertex {v} in one of the accepted forms", dict(case=name, op="truncate", lattice=zoo.lat_to_json(l), chosen=[int(v)]))
+        if canon_l(gu.vertices_to_polygon(l)) != canon_l(gu.vertices_to_polygon(l, np.arange(l.n_vertices))) or canon_l(gu.vertices_to_polygon(l, None)) != canon_l(gu.vertices_to_polygon(l, np.arange(l.n_vertices))):
+            ctx.impl_violation(f"{name}: truncating with vertices=None differs from truncating all vertices", dict(case=name, op="truncate", lattice=zoo.lat_to_json(l), chosen=None))
+    # ---- make_dual with both centre rules on one and the same lattice object, in both orders: each call is what it is on a fresh lattice
+    for name, l0 in [("vor16", zoo.voronoi(rng, 16)), ("vor20-xy", cut_boundaries(zoo.voronoi(rng, 20)))]:
+        raw = zoo.raw(l0)
+        try:
+            fresh = {flag: canon_l(gu.make_dual(Lattice(*[a.copy() for a in raw]), flag)) for flag in (False, True)}
+            for order in ((True, False, True), (False, True, False)):
+                lobj = Lattice(*[a.copy() for a in raw])
+                for flag in order:
+                    got = canon_l(gu.make_dual(lobj, flag)) if flag else canon_l(gu.make_dual(lobj))
+                    if got != fresh[flag]:
+                        ctx.impl_violation(f"{name}: make_dual(use_point_averages={flag}) after a call with the other centre rule on the same lattice differs from the same call on a fresh lattice",
+                                           dict(case=name, op="dual", lattice=zoo.lat_to_json(l0), order=list(order)))
+                        break
+                ctx.case((name, "dual-centre-rules", order), nontrivial=True)
+        except LatticeException:
+            pass
+        except Exception as ex:
+            ctx.impl_violation(f"{name}: make_dual raised {type(ex).__name__}: {ex}", dict(case=name, op="dual", lattice=zoo.lat_to_json(l0)))
     outs = core.Driver().run_parallel(reqs)
     for (name, op, l, res, rows), o in zip(meta, outs):
         brk = lambda what, **kw: ctx.corr_break(f"{name}: {what}", dict(case=name, op=op, lattice=zoo.lat_to_json(l), **kw))
